@@ -427,3 +427,157 @@ def gen_fs_bindings():
 
 
 GENERATORS.append(gen_fs_bindings)
+
+
+# ------------------------------------------------------------------ file reader: where the voxel array comes from (object identity)
+READER_FILE = 'nitime/fmri/io.py'
+READER_FUNCS = ['time_series_from_file', '_tseries_from_nifti_helper']
+FDATA_ATTRS = ('get_fdata', 'get_data')
+
+
+def gen_reader_loads():
+    """one record per `<im>.get_fdata()` call of the reader: `freshLoad` when <im> is, on every path of that function,
+    bound by `<im> = load(<file>)` with `load` imported from nibabel and never rebound in the module (a new image
+    object per call, so its cached array is a new buffer); anything else (an image taken from a cache / a helper / a
+    global) is `other`.  Also: decorators of the reader functions (memoisation changes result identity) and
+    module-level names bound to mutable containers or call results (hidden state that can outlive a call)."""
+    rows, state, decos, echo = [], [], [], {}
+    path = os.path.join(tr.REPO, READER_FILE)
+    if os.path.exists(path):
+        tree = tr.parse(READER_FILE)
+        nib_load = set()          # local names of nibabel.load
+        nib_mods = set()          # local names of the nibabel module
+        rebound = set()
+        for node in tree.body:
+            for sub in ast.walk(node) if isinstance(node, ast.Try) else [node]:
+                if isinstance(sub, ast.ImportFrom) and sub.module in ('nibabel', 'nibabel.loadsave'):
+                    for a in sub.names:
+                        if a.name == 'load':
+                            nib_load.add(a.asname or a.name)
+                if isinstance(sub, ast.Import):
+                    for a in sub.names:
+                        if a.name == 'nibabel':
+                            nib_mods.add(a.asname or a.name)
+            if isinstance(node, (ast.FunctionDef, ast.ClassDef)):
+                rebound.add(node.name)
+            if isinstance(node, (ast.Assign, ast.AnnAssign, ast.AugAssign)):
+                tgts = node.targets if isinstance(node, ast.Assign) else [node.target]
+                for t in tgts:
+                    for n in ast.walk(t):
+                        if isinstance(n, ast.Name):
+                            rebound.add(n.id)
+                            v = node.value
+                            if v is not None and not isinstance(v, ast.Constant) and tr.const_int(v) is None and \
+                                    not (isinstance(v, ast.Name) or isinstance(v, ast.JoinedStr)):
+                                state.append('%s = %s' % (n.id, src_text(v)[:60]))
+
+        def is_nib_load(call):
+            if not isinstance(call, ast.Call) or len(call.args) != 1 or call.keywords:
+                return False
+            f = call.func
+            if isinstance(f, ast.Name):
+                return f.id in nib_load and f.id not in rebound
+            return isinstance(f, ast.Attribute) and f.attr == 'load' and isinstance(f.value, ast.Name) and \
+                f.value.id in nib_mods and f.value.id not in rebound
+
+        for fn in [n for n in ast.walk(tree) if isinstance(n, ast.FunctionDef)]:
+            if fn.decorator_list and fn.name in READER_FUNCS:
+                decos.append('%s: @%s' % (fn.name, ', @'.join(src_text(d) for d in fn.decorator_list)))
+            ctx = Ctx(fn, None)
+            calls = [n for n in ast.walk(fn) if isinstance(n, ast.Call) and isinstance(n.func, ast.Attribute) and n.func.attr in FDATA_ATTRS]
+            calls += [n for n in ast.walk(fn) if isinstance(n, ast.Attribute) and n.attr == 'dataobj']
+            calls.sort(key=lambda n: (n.lineno, n.col_offset))
+            for i, c in enumerate(calls):
+                base = c.func.value if isinstance(c, ast.Call) else c.value
+                kind = 'other'
+                if isinstance(base, ast.Name) and base.id not in ctx.params:
+                    defs = ctx.local_assigns(base.id)
+                    globl = any(isinstance(n, (ast.Global, ast.Nonlocal)) and base.id in n.names for n in ast.walk(fn))
+                    if defs and all(is_nib_load(d) for d in defs) and not globl and isinstance(c, ast.Call) and not c.args and not c.keywords:
+                        kind = 'freshLoad'
+                elif is_nib_load(base) and isinstance(c, ast.Call) and not c.args and not c.keywords:
+                    kind = 'freshLoad'
+                rows.append(('%s.%d' % (fn.name, i), '%s:%d %s' % (READER_FILE, c.lineno, src_text(c)), kind,
+                             '|'.join(src_text(d) for d in ctx.local_assigns(base.id)) if isinstance(base, ast.Name) else src_text(base)))
+    lines = ['-- GENERATED by harness/translate_c15.py from nitime/fmri/io.py: where the reader takes its voxel arrays from. DO NOT EDIT.',
+             'import Nitime.Model.C15Types', 'namespace Nitime.Generated.ReaderLoads', 'open Nitime.C15', '',
+             'def all : List FdataSite :=', '  [']
+    body = []
+    for key, note, kind, how in rows:
+        body.append('   -- %s\n   { key := "%s", how := "%s", src := .%s }' % (note.replace('\n', ' ')[:160], key,
+                                                                             how.replace('"', "'").replace('\\', '/').replace('\n', ' ')[:80], kind))
+        echo[key] = '%s <- %s' % (kind, how)
+    lines.append(',\n'.join(body))
+    lines += ['  ]', '',
+              '/-- module-level names of the reader module bound to something other than a constant (state that outlives a call) -/',
+              'def moduleState : List String :=\n  [%s]' % ', '.join('"%s"' % s.replace('"', "'").replace('\\', '/').replace('\n', ' ') for s in state), '',
+              '/-- decorators on the reader functions (memoisation would change the identity of results) -/',
+              'def decorators : List String :=\n  [%s]' % ', '.join('"%s"' % s.replace('"', "'").replace('\\', '/').replace('\n', ' ') for s in decos), '',
+              'end Nitime.Generated.ReaderLoads', '']
+    echo['moduleState'] = state
+    echo['decorators'] = decos
+    return 'ReaderLoads.lean', '\n'.join(lines), echo
+
+
+GENERATORS.append(gen_reader_loads)
+
+
+# ------------------------------------------------------------------ transform calls: do they work on exactly the series' samples?
+TRANSFORMS = ('fft', 'ifft', 'rfft', 'irfft', 'fftn', 'ifftn', 'hilbert', 'hilbert2')
+LEN_KW = ('n', 'N', 'nfft', 'NFFT', 's', 'shape')
+TR_FILES = ['nitime/analysis/spectral.py', 'nitime/analysis/coherence.py', 'nitime/analysis/correlation.py',
+            'nitime/analysis/normalization.py', 'nitime/analysis/snr.py', 'nitime/analysis/event_related.py',
+            'nitime/analysis/granger.py']
+
+
+def gen_transform_calls():
+    """every call of an FFT-type transform (fft/ifft/rfft/…/hilbert, through local aliases such as `fft = fftpack.fft`)
+    inside the analyzers, with whether it is given a transform LENGTH (second positional argument or n=/N=…): a
+    transform of the series' own samples takes none.  Uses of `next_fast_len` are recorded as length arguments too."""
+    rows = []
+    for p in TR_FILES:
+        if not os.path.exists(os.path.join(tr.REPO, p)):
+            continue
+        tree = tr.parse(p)
+        for cls in [n for n in tree.body if isinstance(n, ast.ClassDef)] + [None]:
+            fns = [n for n in (cls.body if cls is not None else tree.body) if isinstance(n, ast.FunctionDef)]
+            for fn in fns:
+                ctx = Ctx(fn, cls)
+
+                def last_name(f, depth=0):
+                    if isinstance(f, ast.Attribute):
+                        return f.attr
+                    if isinstance(f, ast.Name):
+                        defs = ctx.local_assigns(f.id)
+                        if defs and depth < 4:
+                            ns = {last_name(d, depth + 1) for d in defs}
+                            return ns.pop() if len(ns) == 1 else f.id
+                        return f.id
+                    return None
+                calls = [n for n in ast.walk(fn) if isinstance(n, ast.Call)]
+                calls.sort(key=lambda n: (n.lineno, n.col_offset))
+                i = 0
+                for c in calls:
+                    nm = last_name(c.func)
+                    if nm in TRANSFORMS:
+                        has_len = len(c.args) > 1 or any(k.arg in LEN_KW for k in c.keywords) or any(k.arg is None for k in c.keywords)
+                        rows.append(('%s%s.%d' % (cls.name + '.' if cls is not None else '', fn.name, i), nm, has_len,
+                                     '%s:%d %s' % (p, c.lineno, src_text(c))))
+                        i += 1
+                    elif nm == 'next_fast_len':
+                        rows.append(('%s%s.%d' % (cls.name + '.' if cls is not None else '', fn.name, i), nm, True,
+                                     '%s:%d %s' % (p, c.lineno, src_text(c))))
+                        i += 1
+    lines = ['-- GENERATED by harness/translate_c15.py: FFT-type transform calls inside the analyzers. DO NOT EDIT.',
+             'import Nitime.Model.C15Types', 'namespace Nitime.Generated.TransformCalls', 'open Nitime.C15', '',
+             'def all : List TransformCall :=', '  [']
+    body, echo = [], {}
+    for key, nm, has_len, note in rows:
+        body.append('   -- %s\n   { key := "%s", fn := "%s", lengthArg := %s }' % (note.replace('\n', ' ')[:160], key, nm, 'true' if has_len else 'false'))
+        echo[key] = '%s lengthArg=%s' % (nm, has_len)
+    lines.append(',\n'.join(body))
+    lines += ['  ]', '', 'end Nitime.Generated.TransformCalls', '']
+    return 'TransformCalls.lean', '\n'.join(lines), echo
+
+
+GENERATORS.append(gen_transform_calls)
